@@ -168,7 +168,8 @@ class C09(vlib.Driver):
                     w = rng.choice([1, 1, 2, 3, cap, max(1, cap - 1), rng.randint(1, cap)])
                     w = min(w, cap); size = min(cap, size + w); ops.append(["add", w])
                 elif r < 0.97:
-                    b = rng.randint(1, size)
+                    # one sample in seven is as wide as the buffer (theorem sample_complete: every stored row exactly once)
+                    b = size if rng.random() < 0.15 else rng.randint(1, size)
                     perm = list(range(size)); rng.shuffle(perm)
                     ops.append(["sample", b, perm])
                 else:
